@@ -90,7 +90,7 @@ def build_module(harnesses, omp=False, extra_flags=()):
     return paths, key, info
 
 # ---------------- native build (replay and differential runs)
-NATIVE_FLAGS = ['-std=c++17', '-O1', '-g0', '-w', '-DCOLVARS_VERIF', '-fsanitize=address,undefined', '-fno-sanitize=vptr,function,nonnull-attribute', '-fno-sanitize-recover=all', '-fno-omit-frame-pointer']
+NATIVE_FLAGS = ['-std=c++17', '-O1', '-g0', '-w', '-DCOLVARS_VERIF', '-DVERIF_NATIVE', '-pthread', '-fsanitize=address,undefined', '-fno-sanitize=vptr,function,nonnull-attribute', '-fno-sanitize-recover=all', '-fno-omit-frame-pointer']
 
 def native_lib(omp=False):
     """compile the library natively into cached objects; returns list of .o"""
